@@ -207,6 +207,24 @@ theorem reverse_from_position_eq_prefix (c : List Nat) (p bs : Nat) (hbs : 1 ≤
     reverseIterLinesFrom c p bs = reverseIterLines (c.take p) bs := by
   rw [reverse_lines_from_position c p bs hbs, reverse_lines _ bs hbs]
 
+/-- content with multi-byte characters / text mode: when the file holds well-formed UTF-8, every
+    line the loop yields is well-formed UTF-8, so `line.decode('utf-8')` cannot fail and no line
+    begins or ends inside a character — for every block size, also one that cuts every character
+    in pieces (`sp = false`: the strict codec; `sp = true`: with lone surrogates allowed) -/
+theorem reverse_lines_decodable (sp : Bool) (c : List Nat) (bs : Nat) (hbs : 1 ≤ bs)
+    (hv : validUtf8G sp c = true) : ∀ l ∈ reverseIterLines c bs, validUtf8G sp l = true := by
+  rw [reverse_lines c bs hbs]
+  intro l hl
+  simp only [List.mem_reverse, linesOf, List.mem_append] at hl
+  rcases hl with hl | hl
+  · refine aux_lines_valid sp bytesBreak ?_ c.length c false (Nat.le_refl _) hv l hl
+    intro x hx
+    simp [bytesBreak] at hx
+    omega
+  · split at hl
+    · simp at hl; subst hl; simp [validUtf8G]
+    · cases hl
+
 /-! ## JSONLIterator -/
 
 variable {α ε : Type}
@@ -386,5 +404,11 @@ example : iterSplitlines (indent keyBool [32, 32] [10] [97, 10, 10, 98, 10]) = [
 example : iterSplitlines (joinWith [10] [[]]) = [] := by decide
 -- and so is the margin hypothesis of `indent_lines`: a margin with a line break adds lines
 example : iterSplitlines (indent keyBool [10] [10] [97]) ≠ (iterSplitlines [97]).map (fun l => if keyBool l then [10] ++ l else l) := by decide
+
+-- "é\n日" (c3 a9 0a e6 97 a5) read one byte at a time: both lines come back whole
+example : strictUtf8 [195, 169, 10, 230, 151, 165] = true := by decide
+example : reverseIterLines [195, 169, 10, 230, 151, 165] 1 = [[230, 151, 165], [195, 169]] := by decide
+-- the strict codec rejects a lone surrogate (ed a0 80), the surrogatepass one accepts it
+example : strictUtf8 [237, 160, 128] = false ∧ validUtf8 [237, 160, 128] = true := by decide
 
 end C19
